@@ -29,11 +29,13 @@ if LANG == "py":
     import keyword
     _RESERVED |= set(keyword.kwlist) | set(dir(builtins))      # python's reserved names are the interpreter's own
 _PATS_CFG = _L.get_config_value_as_dict("reserved_token_patterns_by_type", default_value={})
-_PATS = [re.compile(p) for k in ("all", IDTYPE) for p in (_PATS_CFG.get(k) or [])]
+# documented: id type 'any' applies the rules of ALL identifier types
+_KEYS = (lambda cfg: tuple(cfg.keys()) if IDTYPE == "any" else ("all", IDTYPE))
+_PATS = [re.compile(p) for k in _KEYS(_PATS_CFG) for p in (_PATS_CFG.get(k) or [])]
 _CID = re.compile(r"[A-Za-z_][A-Za-z0-9_]*")
 # character sequences the configuration declares unusable in an identifier of this language/type (C++: "__" anywhere, ...)
 _ENC_CFG = _L.get_config_value_as_dict("token_encoding_rules_by_identifier_type", default_value={})
-_ENC = [re.compile(p) for k in ("all", IDTYPE) for p in (_ENC_CFG.get(k) or [])]
+_ENC = [re.compile(p) for k in _KEYS(_ENC_CFG) for p in (_ENC_CFG.get(k) or [])]
 
 
 def _valid(tok: str) -> bool:
@@ -59,6 +61,48 @@ def strop_ok(token: str) -> bool:
     pre: 1 <= len(token) <= MAXLEN and in_sigma(token)
     post: _
     """
+    return _check(token)
+
+
+# ---- whole reserved words (the short alphabet above cannot spell most of them).  The lists are the LANGUAGES' own, written down here
+# independently of nunavut's configuration: ISO C11 / C++17 keywords and alternative tokens; Python's keyword.kwlist and builtins.
+_C_WORDS = ("auto break case char const continue default do double else enum extern float for goto if inline int long register restrict return short "
+            "signed sizeof static struct switch typedef union unsigned void volatile while _Alignas _Alignof _Atomic _Bool _Complex _Generic "
+            "_Imaginary _Noreturn _Static_assert _Thread_local").split()
+_CPP_WORDS = _C_WORDS[:34] + ("alignas alignof and and_eq asm bitand bitor bool catch char16_t char32_t class compl const_cast constexpr decltype delete "
+                              "dynamic_cast explicit export false friend mutable namespace new noexcept not not_eq nullptr operator or or_eq private protected "
+                              "public reinterpret_cast static_assert static_cast template this thread_local throw true try typeid typename using virtual "
+                              "wchar_t xor xor_eq").split()
+if LANG == "py":
+    import builtins as _b
+    import keyword as _k
+    WORDS = sorted(set(_k.kwlist) | set(dir(_b)))
+else:
+    WORDS = sorted(set(_CPP_WORDS if LANG == "cpp" else _C_WORDS))
+CHUNK, NCHUNKS = int(os.environ.get("C09_CHUNK", "0")), int(os.environ.get("C09_NCHUNKS", "1"))
+
+
+def reserved_word_never_comes_back(i: int, suffix: str) -> bool:
+    """
+    pre: 0 <= i < len(WORDS) and i % NCHUNKS == CHUNK
+    pre: suffix == "" or suffix == "_"
+    post: _
+    """
+    # a keyword / reserved name of the target language itself (optionally followed by an underscore: then usually no
+    # longer reserved, and to be returned unchanged) never comes back as a reserved word
+    token = WORDS[i] + suffix
+    out_ok = _check(token)
+    if not out_ok:
+        return False
+    if suffix == "":
+        try:
+            return _L.filter_id(token, IDTYPE) != token
+        except RuntimeError:
+            return True
+    return True
+
+
+def _check(token: str) -> bool:
     try:
         out = _L.filter_id(token, IDTYPE)
     except RuntimeError:
@@ -79,6 +123,7 @@ def strop_ok(token: str) -> bool:
 
 # ------------------------------------------------------------------------------------------------ process history
 _RES2 = "aa"
+OTHER_FIRST = int(os.environ.get("C09_OTHER_FIRST", "-1"))     # split over processes
 
 
 def _new_language(extra_reserved: bool):
@@ -92,6 +137,7 @@ def _new_language(extra_reserved: bool):
 def result_independent_of_earlier_language_objects(token: str, other_first: bool) -> bool:
     """
     pre: 1 <= len(token) <= 2 and all(c in "a_" for c in token)
+    pre: OTHER_FIRST < 0 or other_first == (OTHER_FIRST == 1)
     post: _
     """
     # "the result depends only on the input (same in every process)": a language object with ITS configuration gives the same answer
